@@ -269,6 +269,14 @@ def run_real(c, ctx):
         l = xyz.load_ds(path, engine=eng)
         obs['loaded'] = dsutil.canon_full(l)
         if hasattr(l, 'close'): l.close()
+        # load_ds(create_new=True): the data when the file is there, a blank dataset only when it is not
+        stage = 'load_create_new'
+        l2 = xyz.load_ds(path, engine=eng, create_new=True)
+        obs['loaded_create_new'] = dsutil.canon_full(l2)
+        if hasattr(l2, 'close'): l2.close()
+        l3 = xyz.load_ds(path + '_absent', engine=eng, create_new=True)
+        obs['blank'] = {'vars': len(l3.data_vars), 'dims': len(l3.dims), 'attrs': len(l3.attrs)}
+        obs['ls_create_new'] = dsutil.listing(d)
         if have_dask() and c['chunks'] is not None:
             stage = 'load_chunks'
             ch = 1 if c['chunks'] == 1 else {dd['name']: 1 for dd in c['ds']['dims']}
@@ -394,6 +402,12 @@ def oracle(c, obs):
     for part in ('dims', 'coords', 'vars', 'attrs'):
         if got[part] != exp[part]:
             return f'loaded dataset differs from the saved one in {part}: ' + _first_diff(exp[part], got[part])
+    if obs.get('loaded_create_new') is not None and obs['loaded_create_new'] != got:
+        return 'load_ds(create_new=True) on an existing file did not give the saved data back'
+    if obs.get('blank') is not None and obs['blank'] != {'vars': 0, 'dims': 0, 'attrs': 0}:
+        return f'load_ds(create_new=True) on a missing file gave a non-empty dataset: {obs["blank"]}'
+    if obs.get('ls_create_new') is not None and obs['ls_create_new'] != [want_path]:
+        return f'load_ds(create_new=True) changed the directory: {obs["ls_create_new"]}'
     if 'loaded_lazy' in obs:
         if obs['loaded_lazy'] != got:
             for part in ('dims', 'coords', 'vars', 'attrs'):
